@@ -196,9 +196,31 @@ def pubWorldOp (j : Json) : Except String Res := do
     | .ok (Json.arr rs) => rs.toList.map fun rd => match rd with | Json.arr parts => parts[1]?.getD Json.null | _ => Json.null
     | _ => [])
   let pagesOk := kidsI.map shape == kidsM.map shape && ends impl == ends modelJ
+  -- C04 on everything sent while the world was browsed: one well-formed GET per connection with
+  -- Host and Accept and nothing else; the target carries no fragment (neither raw nor escaped:
+  -- no URL of these worlds has an escaped '#'), no blank and no control character
+  let wire : List Str := match j.getObjVal? "wire" with
+    | .ok (Json.arr a) => a.toList.filterMap fun p => match p with
+      | Json.arr q => match q[1]? with | some (Json.str s) => some s.toList | _ => none
+      | _ => none
+    | _ => []
+  let worldHasEscapedHash := match urltable with
+    | Json.obj kvs => kvs.toList.any fun (k, _) => (k.splitOn "%23").length > 1
+    | _ => false
+  let wireOk := wire.all fun raw =>
+    let lines := (String.ofList raw).splitOn "\r\n"
+    let reqLine := lines[0]?.getD ""
+    let target := ((reqLine.splitOn " ").drop 1).dropLast
+    lines.length == 5 && reqLine.startsWith "GET /" && reqLine.endsWith " HTTP/1.0" &&
+    (lines[1]?.getD "").startsWith "Host: " && (lines[2]?.getD "").startsWith "Accept: " &&
+    lines[3]? == some "" && lines[4]? == some "" &&
+    lines.all (fun l => !(l.toList.any fun c => c.toNat < 32 || c.toNat == 127)) &&
+    target.length == 1 && !(target.any fun t => t.toList.contains '#' || (!worldHasEscapedHash && (t.splitOn "%23").length > 1))
+  let canary := ((j.getObjVal? "canaryhits").toOption.bind (·.getNat?.toOption)).getD 0
   pure { model := Json.mkObj fields,
          preds := [("served_by_the_host_in_its_id", prov), ("listed_entries_are_genuine", genuine),
-                   ("authors_share_the_posts_host", authors), ("listing_is_the_pages_items_in_order", pagesOk)],
+                   ("authors_share_the_posts_host", authors), ("listing_is_the_pages_items_in_order", pagesOk),
+                   ("requests_wellformed", wireOk), ("no_plaintext_connection", canary == 0)],
          nontrivial := kidsI.length ≥ 1 || (match impl.getObjVal? "parents" with | .ok (Json.arr a) => a.size ≥ 1 | _ => false) }
 
 end Ops
